@@ -54,7 +54,7 @@ def generate(rng, tier, idx):
         if not thorough:
             truncs = sorted(set([rng.randint(1, d), max(1, d - 1)]))
         for t in truncs:
-            configs.append({'type': vt, 'trunc': t})
+            configs.append({'type': vt, 'trunc': t, 'positional': rng.random() < 0.4})
         if rng.random() < 0.5:
             configs.append({'type': vt, 'trunc': None})     # fit(X): the documented default, 3
     patterns = ['nan', 'noise'] + [rng.choice(['big', 'negbig', 'ones', 'zero'])]
@@ -101,7 +101,7 @@ def execute(run):
         for p in run['poisons']:
             ctx.stats['fits'] += 1
             vine, out = vinelib.fit_vine(cfg['type'], cfg['trunc'], df, p, run['pseed'],
-                                         prefit=prefit)
+                                         prefit=prefit, positional=bool(cfg.get('positional')))
             ctx.faults['F3_allocator_garbage:' + p] += 1
             cond = {'vine_type': cfg['type'], 'd': d, 'truncated': cfg['trunc'] or 'default',
                     'poison': p,
